@@ -19,58 +19,80 @@
 (***************************************************************************)
 EXTENDS Integers, Sequences, FiniteSets
 
+(* The `@type` comments are annotations for Apalache (spec/SegOpsInd.tla proves the well-formedness of the segment   *)
+(* list inductive over these transactions for unbounded indexes); TLC ignores them.                                  *)
+
+\* @type: (Int, Int, Int, Int, Bool) => {id: Int, base: Int, min: Int, max: Int, sealed: Bool};
 Seg(id, base, mn, mx, sealed) == [id |-> id, base |-> base, min |-> mn, max |-> mx, sealed |-> sealed]
+\* @type: Seq({id: Int, base: Int, min: Int, max: Int, sealed: Bool}) => {id: Int, base: Int, min: Int, max: Int, sealed: Bool};
 TailOf(segs) == segs[Len(segs)]
-Ids(segs) == {segs[k].id : k \in 1..Len(segs)}
+\* @type: Seq({id: Int, base: Int, min: Int, max: Int, sealed: Bool}) => Set(Int);
+Ids(segs) == {segs[k].id : k \in DOMAIN segs}
 
 (* createNextSegment: a fresh unsealed tail with the next free id *)
+\* @type: (Seq({id: Int, base: Int, min: Int, max: Int, sealed: Bool}), Int, Int) => Seq({id: Int, base: Int, min: Int, max: Int, sealed: Bool});
 NewTailSegs(segs, next, base) == Append(segs, Seg(next, base, base, 0, FALSE))
 (* rotateSegmentLocked / forced seal: the tail becomes a sealed segment ending at `last` *)
-SealedTailSegs(segs, last) == [segs EXCEPT ![Len(segs)].sealed = TRUE, ![Len(segs)].max = last]
+\* @type: (Seq({id: Int, base: Int, min: Int, max: Int, sealed: Bool}), Int) => Seq({id: Int, base: Int, min: Int, max: Int, sealed: Bool});
+SealedTailSegs(segs, last) ==
+  [segs EXCEPT ![Len(segs)] = Seg(TailOf(segs).id, TailOf(segs).base, TailOf(segs).min, last, TRUE)]
 
 (* Open on metadata without an unsealed tail (fresh directory): commit a tail *)
+\* @type: (Seq({id: Int, base: Int, min: Int, max: Int, sealed: Bool}), Int) => {next: Int, segs: Seq({id: Int, base: Int, min: Int, max: Int, sealed: Bool})};
 InitResult(segs, next) ==
   [next |-> next + 1,
    segs |-> NewTailSegs(segs, next, IF segs = <<>> THEN 1 ELSE TailOf(segs).max + 1)]
 
 (* rotation (background after a sealing append, or completed by Open): seal the tail at the log's last index *)
+\* @type: (Seq({id: Int, base: Int, min: Int, max: Int, sealed: Bool}), Int, Int) => {next: Int, segs: Seq({id: Int, base: Int, min: Int, max: Int, sealed: Bool})};
 RotateResult(segs, next, last) ==
   [next |-> next + 1, segs |-> NewTailSegs(SealedTailSegs(segs, last), next, last + 1)]
 
 (* resetEmptyFirstSegmentBaseIndex: the empty tail of an empty log is replaced by one with the right base *)
+\* @type: (Seq({id: Int, base: Int, min: Int, max: Int, sealed: Bool}), Int, Int) => {next: Int, segs: Seq({id: Int, base: Int, min: Int, max: Int, sealed: Bool})};
 ResetResult(segs, next, newBase) ==
   LET front == SubSeq(segs, 1, Len(segs) - 1) IN
   [next |-> next + 1,
    segs |-> NewTailSegs(front, next, IF front = <<>> THEN newBase ELSE TailOf(front).max + 1)]
 
 (* truncateHeadLocked(newMin); `last` = the log's last index (what the unsealed tail holds up to) *)
+\* @type: ({id: Int, base: Int, min: Int, max: Int, sealed: Bool}, Int, Int) => Bool;
 SegSurvivesHead(sg, newMin, last) == IF sg.sealed THEN sg.max >= newMin ELSE last >= newMin
+\* @type: (Seq({id: Int, base: Int, min: Int, max: Int, sealed: Bool}), Int, Int, Int) => {next: Int, segs: Seq({id: Int, base: Int, min: Int, max: Int, sealed: Bool})};
 HeadResult(segs, next, newMin, last) ==
-  LET keep == SelectSeq(segs, LAMBDA sg : SegSurvivesHead(sg, newMin, last)) IN
+  LET \* @type: {id: Int, base: Int, min: Int, max: Int, sealed: Bool} => Bool;
+      Survives(sg) == SegSurvivesHead(sg, newMin, last)
+      keep == SelectSeq(segs, Survives) IN
   IF keep = <<>>
   THEN [next |-> next + 1, segs |-> <<Seg(next, last + 1, last + 1, 0, FALSE)>>]
-  ELSE [next |-> next, segs |-> [keep EXCEPT ![1].min = newMin]]
+  ELSE [next |-> next, segs |-> [keep EXCEPT ![1] = Seg(keep[1].id, keep[1].base, newMin, keep[1].max, keep[1].sealed)]]
 (* truncateTailLocked(newMax): segments wholly above newMax go, the one holding newMax is (force-)sealed at newMax, *)
 (* a fresh tail starts at newMax + 1                                                                                *)
+\* @type: (Seq({id: Int, base: Int, min: Int, max: Int, sealed: Bool}), Int, Int) => {next: Int, segs: Seq({id: Int, base: Int, min: Int, max: Int, sealed: Bool})};
 TailResult(segs, next, newMax) ==
-  LET keep0 == SelectSeq(segs, LAMBDA sg : sg.base <= newMax)
+  LET \* @type: {id: Int, base: Int, min: Int, max: Int, sealed: Bool} => Bool;
+      Below(sg) == sg.base <= newMax
+      keep0 == SelectSeq(segs, Below)
       keep == IF keep0 = <<>> THEN keep0
-              ELSE [keep0 EXCEPT ![Len(keep0)].sealed = TRUE, ![Len(keep0)].max = newMax]
+              ELSE [keep0 EXCEPT ![Len(keep0)] = Seg(TailOf(keep0).id, TailOf(keep0).base, TailOf(keep0).min, newMax, TRUE)]
   IN [next |-> next + 1, segs |-> NewTailSegs(keep, next, newMax + 1)]
 
 (* structural invariant of every committed segment list *)
+\* @type: (Seq({id: Int, base: Int, min: Int, max: Int, sealed: Bool}), Int) => Bool;
 WellFormed(segs, next) ==
   /\ Len(segs) >= 1
-  /\ \A k \in 1..Len(segs) : /\ segs[k].id < next /\ segs[k].id >= 0
-                             /\ segs[k].base >= 1 /\ segs[k].min >= segs[k].base
-  /\ \A k \in 1..(Len(segs) - 1) : /\ segs[k].sealed
-                                   /\ segs[k].max >= segs[k].min
-                                   /\ segs[k + 1].base = segs[k].max + 1
-                                   /\ segs[k].id < segs[k + 1].id
-                                   /\ (k > 1 => segs[k].min = segs[k].base)        \* only the head is ever cut
+  /\ \A k \in DOMAIN segs : /\ segs[k].id < next /\ segs[k].id >= 0
+                            /\ segs[k].base >= 1 /\ segs[k].min >= segs[k].base
+  /\ \A k \in DOMAIN segs : k < Len(segs) =>
+                               /\ segs[k].sealed
+                               /\ segs[k].max >= segs[k].min
+                               /\ segs[k + 1].base = segs[k].max + 1
+                               /\ segs[k].id < segs[k + 1].id
+                               /\ (k > 1 => segs[k].min = segs[k].base)        \* only the head is ever cut
   /\ ~TailOf(segs).sealed /\ TailOf(segs).max = 0
   /\ (Len(segs) > 1 => TailOf(segs).min = TailOf(segs).base)
 
 (* the log bounds a segment list denotes, given the log's last index: first index (0 iff empty) *)
+\* @type: (Seq({id: Int, base: Int, min: Int, max: Int, sealed: Bool}), Int) => Int;
 FirstFrom(segs, last) == IF last = 0 \/ last < segs[1].min THEN 0 ELSE segs[1].min
 =============================================================================
